@@ -1,6 +1,279 @@
-/- Line-protocol driver for engine `hist` — not built yet (stub). -/
+/-
+  Line-protocol driver for engine `hist` (C04, C03).
+
+  Case:   hist <setup…> | <op> ; <op> ; …
+  setup:  tab=<name>(<col>:<type>[!][*],…)   table; types big|int|text, `!` = NOT NULL, `*` = UNIQUE
+          row=<table>:<v>,<v>,…              initial committed row (one autocommit INSERT each, in order)
+          fresh                              no warm-up transaction (nothing with id > 0 has committed yet)
+  op:     s<i> begin | commit | rollback | drop            session control (a session = one transaction)
+          s<i> <stmt>                                       statement inside the session's transaction
+          db <stmt>                                         Database::execute (autocommit)
+          db batch <stmt> & <stmt> & …                      Database::execute_batch
+  stmt:   sel <t> [where <col> <cmp> <v>]
+          ins <t> <v> <v> … [, <v> <v> …]*                  multi-row INSERT
+          upd <t> <col> set|add <v> [where <col> <cmp> <v>]
+          del <t> [where <col> <cmp> <v>]
+  cmp:    eq ne lt le gt ge        v: decimal integer (|v| ≤ 10^9) | null | 'lowercase'
+  Output: one token per op (`ok`, `ok<n>` rows affected, `[r;r;…]` sorted rows, error class, `nosession`,
+          `batch(…)`, `batch-<class>`), then ` | ` and the final committed content of every table.
+  Flags:  defect names of `Db.Defects`; the pseudo-flag `abs` runs the abstract machine `Db.Spec` instead.
+-/
+import AxVerif.Model.Db
+import AxVerif.Model.Bytes
+namespace AxVerif.Db.Drv
+open AxVerif AxVerif.Db
+
+def isLower (c : Char) : Bool := 'a' ≤ c && c ≤ 'z'
+def isDigit (c : Char) : Bool := '0' ≤ c && c ≤ '9'
+
+def ident (s : String) : Bool :=
+  match s.toList with
+  | [] => false
+  | c :: cs => isLower c && cs.all (fun d => isLower d || isDigit d)
+
+def sessName (s : String) : Bool :=
+  match s.toList with
+  | 's' :: d :: ds => (d :: ds).all isDigit
+  | _ => false
+
+def natOfDigits : List Char → Nat → Nat
+  | [], acc => acc
+  | c :: cs, acc => natOfDigits cs (acc * 10 + (c.toNat - 48))
+
+/-- canonical decimal: no sign but `-`, no leading zeros, no `-0`, at most 10 digits -/
+def parseInt (s : String) : Option Int :=
+  let go (ds : List Char) : Option Nat :=
+    match ds with
+    | [] => none
+    | d :: rest =>
+      if (d :: rest).all isDigit && (d != '0' || rest.isEmpty) && (d :: rest).length ≤ 10 then
+        let n := natOfDigits (d :: rest) 0
+        if n ≤ 1000000000 then some n else none
+      else none
+  match s.toList with
+  | '-' :: ds => match go ds with
+    | some n => if n = 0 then none else some (-(Int.ofNat n))
+    | none => none
+  | ds => (go ds).map Int.ofNat
+
+def parseVal (s : String) : Option Val :=
+  if s = "null" then some .null
+  else match s.toList with
+    | '\'' :: rest =>
+      match rest.reverse with
+      | '\'' :: body => if body.all isLower then some (.text (String.ofList body.reverse)) else none
+      | _ => none
+    | _ => (parseInt s).map .int
+
+def allSome : List (Option α) → Option (List α)
+  | [] => some []
+  | none :: _ => none
+  | some x :: xs => (allSome xs).map (x :: ·)
+
+def stripFlags : List Char → Bool → Bool → (List Char × Bool × Bool)
+  | '!' :: cs, _, u => stripFlags cs true u
+  | '*' :: cs, n, _ => stripFlags cs n true
+  | cs, n, u => (cs, n, u)
+
+def parseCol (s : String) : Option Col :=
+  match s.splitOn ":" with
+  | [cn, ty] =>
+    let (tyr, nn, un) := stripFlags ty.toList.reverse false false
+    let tys := String.ofList tyr.reverse
+    if !ident cn then none
+    else if tys = "big" then some ⟨cn, .big, nn, un⟩
+    else if tys = "int" then some ⟨cn, .int, nn, un⟩
+    else if tys = "text" then some ⟨cn, .text, nn, un⟩
+    else none
+  | _ => none
+
+def parseTable (s : String) : Option TableSchema :=
+  match s.splitOn "(" with
+  | [name, rest] =>
+    match rest.toList.reverse with
+    | ')' :: body =>
+      if !ident name then none
+      else match allSome ((String.ofList body.reverse).splitOn "," |>.map parseCol) with
+        | some cols => if cols.isEmpty then none else some ⟨name, cols⟩
+        | none => none
+    | _ => none
+  | _ => none
+
+structure Setup where
+  tables : List TableSchema := []
+  rows : List (String × List Val) := []
+  fresh : Bool := false
+
+def parseSetup : List String → Setup → Option Setup
+  | [], st => some { st with tables := st.tables.reverse, rows := st.rows.reverse }
+  | w :: ws, st =>
+    if w = "fresh" then parseSetup ws { st with fresh := true }
+    else if w.startsWith "tab=" then
+      match parseTable (w.drop 4).toString with
+      | some t => parseSetup ws { st with tables := t :: st.tables }
+      | none => none
+    else if w.startsWith "row=" then
+      match (w.drop 4).toString.splitOn ":" with
+      | [t, vs] => match allSome (vs.splitOn "," |>.map parseVal) with
+        | some vals => parseSetup ws { st with rows := (t, vals) :: st.rows }
+        | none => none
+      | _ => none
+    else none
+
+def parseCmp : String → Option CmpOp
+  | "eq" => some .eq | "ne" => some .ne | "lt" => some .lt | "le" => some .le | "gt" => some .gt | "ge" => some .ge
+  | _ => none
+
+def parsePred : List String → Option (Option Pred)
+  | [] => some none
+  | ["where", col, op, v] =>
+    match parseCmp op, parseVal v with
+    | some o, some x => if ident col then some (some ⟨col, o, x⟩) else none
+    | _, _ => none
+  | _ => none
+
+/-- splits a word list at every occurrence of `sep` -/
+def splitWords (sep : String) : List String → List String → List (List String) → List (List String)
+  | [], cur, acc => (cur.reverse :: acc).reverse
+  | w :: ws, cur, acc => if w = sep then splitWords sep ws [] (cur.reverse :: acc) else splitWords sep ws (w :: cur) acc
+
+def parseStmt : List String → Option Stmt
+  | "sel" :: t :: rest => if ident t then (parsePred rest).map (Stmt.sel t) else none
+  | "del" :: t :: rest => if ident t then (parsePred rest).map (Stmt.del t) else none
+  | "upd" :: t :: col :: how :: v :: rest =>
+    if ident t && ident col && (how = "set" || how = "add") then
+      match parseVal v, parsePred rest with
+      | some x, some p => some (.upd t col (how = "add") x p)
+      | _, _ => none
+    else none
+  | "ins" :: t :: rest =>
+    if ident t && !rest.isEmpty then
+      let groups := splitWords "," rest [] []
+      if groups.any (·.isEmpty) then none
+      else match allSome (groups.map (fun g => allSome (g.map parseVal))) with
+        | some rows => some (.ins t rows)
+        | none => none
+    else none
+  | _ => none
+
+def parseOp (ws : List String) : Option Op :=
+  match ws with
+  | "db" :: "batch" :: rest =>
+    (allSome ((splitWords "&" rest [] []).map parseStmt)).map Op.batch
+  | "db" :: rest => (parseStmt rest).map Op.auto
+  | [s, "begin"] => if sessName s then some (.begin s) else none
+  | [s, "commit"] => if sessName s then some (.commit s) else none
+  | [s, "rollback"] => if sessName s then some (.rollback s) else none
+  | [s, "drop"] => if sessName s then some (.drop s) else none
+  | s :: rest => if sessName s then (parseStmt rest).map (Op.exec s) else none
+  | [] => none
+
+def parseCase (line : String) : Option (Setup × List Op) :=
+  let line := line.trimAscii.toString
+  if !line.startsWith "hist " then none
+  else match (line.drop 5).toString.splitOn "|" with
+    | [setup, ops] =>
+      match parseSetup (words setup) {} with
+      | none => none
+      | some st =>
+        let ops := ops.trimAscii.toString
+        if ops.isEmpty then some (st, [])
+        else (allSome ((ops.splitOn " ; ").map (fun o => parseOp (words o)))).map (fun os => (st, os))
+    | _ => none
+
+/-! ### rendering -/
+
+def showVal : Val → String
+  | .int n => toString n
+  | .null => "null"
+  | .text s => "'" ++ s ++ "'"
+
+def insertSorted (x : String) : List String → List String
+  | [] => [x]
+  | y :: ys => if x ≤ y then x :: y :: ys else y :: insertSorted x ys
+
+def sortStrings (xs : List String) : List String := xs.foldr insertSorted []
+
+def showErr : Err → String
+  | .conflict => "conflict" | .constraint => "constraint" | .notfound => "notfound" | .type => "type" | .other => "other"
+
+def showRowsWith (sort : Bool) (rs : List (List Val)) : String :=
+  let xs := rs.map (fun r => joinWith "," (r.map showVal))
+  "[" ++ joinWith ";" (if sort then sortStrings xs else xs) ++ "]"
+
+def showS (sort : Bool) : SOut → String
+  | .okN n => s!"ok{n}"
+  | .rows rs => showRowsWith sort rs
+  | .err e => showErr e
+
+def showOut (sort : Bool) : Out → String
+  | .ok => "ok"
+  | .stmt o => showS sort o
+  | .conflict => "conflict"
+  | .noSession => "nosession"
+  | .batchErr e => "batch-" ++ showErr e
+  | .batch outs => "batch(" ++ joinWith " " (outs.map (showS sort)) ++ ")"
+  | .none => "-"
+
+def hasDup : List String → Bool
+  | [] => false
+  | x :: xs => xs.contains x || hasDup xs
+
+def setupOps (st : Setup) : List Op :=
+  st.tables.map (fun _ => Op.tick) ++ (if st.fresh then [] else [Op.tick]) ++
+    st.rows.map (fun (t, vals) => Op.auto (.ins t [vals]))
+
+def finalOps (st : Setup) : List Op := st.tables.map (fun t => Op.auto (.sel t.name none))
+
+def anyErr (outs : List Out) : Bool :=
+  outs.any (fun o => match o with | .stmt (.err _) => true | .conflict => true | _ => false)
+
+def render (sort : Bool) (st : Setup) (outs : List Out) : String :=
+  let n0 := (setupOps st).length
+  let pre := outs.take n0
+  if anyErr pre then "bad-setup"
+  else
+    let rest := outs.drop n0
+    let nf := st.tables.length
+    let mid := rest.take (rest.length - nf)
+    let fin := rest.drop (rest.length - nf)
+    let finS := (st.tables.zip fin).map (fun (t, o) => t.name ++ "=" ++ showOut sort o)
+    s!"{joinWith " " (mid.map (showOut sort))} | {joinWith " " finS}"
+
+def parseDefects (flags : List String) : Defects :=
+  { updateKeepsInserterXmin := flags.contains "updateKeepsInserterXmin",
+    writeSetNeverRecorded := flags.contains "writeSetNeverRecorded",
+    xmaxNoneSeesAll := flags.contains "xmaxNoneSeesAll",
+    ownDeleteWalksDeltas := flags.contains "ownDeleteWalksDeltas",
+    deleteKeepsStaleXmax := flags.contains "deleteKeepsStaleXmax",
+    deleteMarkSingleSlot := flags.contains "deleteMarkSingleSlot",
+    stmtNotAtomicInSession := flags.contains "stmtNotAtomicInSession" }
+
+def defectNames : List String :=
+  ["updateKeepsInserterXmin", "writeSetNeverRecorded", "xmaxNoneSeesAll", "ownDeleteWalksDeltas",
+   "deleteKeepsStaleXmax", "deleteMarkSingleSlot", "stmtNotAtomicInSession"]
+
+def runLine (flags : List String) (line : String) : String :=
+  match parseCase line with
+  | none => "bad-op"
+  | some (st, ops) =>
+    if hasDup (st.tables.map (·.name)) then "bad-setup"
+    else
+      let all := setupOps st ++ ops ++ finalOps st
+      -- pseudo-flag `nosort`: rows in the model's own (row-id) order, for comparing the two machines list by list
+      let sort := !flags.contains "nosort"
+      if flags.contains "abs" then render sort st (Spec.run st.tables all).2
+      else
+        let go (fl : List String) : String := render sort st (run (parseDefects fl) st.tables all).2
+        let out := go flags
+        -- non-gating diagnostics: the defect flags this answer depends on (switching one off changes it)
+        let fired := (flags.filter defectNames.contains).filter (fun f => go (flags.filter (· != f)) != out)
+        if fired.isEmpty then out else out ++ " ## fired=" ++ joinWith "," fired
+
+end AxVerif.Db.Drv
+
 namespace AxVerif.Drivers
 
-def hist (_flags : List String) (_line : String) : String := "unimplemented"
+def hist (flags : List String) (line : String) : String := AxVerif.Db.Drv.runLine flags line
 
 end AxVerif.Drivers
